@@ -708,6 +708,7 @@ class Run:
         self.steps = 0
         self.globals: dict[tuple[str, str], t.Any] = {}
         self.notes: list[str] = []
+        self.doubt: list[str] = []  # decisions taken on this path that the interpreter had no basis for (one of the two answers may be impossible)
 
     def assumed(self, kind: str, *terms: t.Any) -> bool | None:
         return self.cache.get((kind,) + tuple(vkey(x) for x in terms))
@@ -786,7 +787,10 @@ class Interp:
         self.truncate_loops = False  # True: a path that iterates a loop more than max_loop times is dropped (bounded unrolling)
 
     # -- decisions -----------------------------------------------------
-    def decide(self, kind: str, *terms: t.Any, text: str | None = None) -> bool:
+    def decide(self, kind: str, *terms: t.Any, text: str | None = None, doubtful: bool = False) -> bool:
+        """the answer to a question the scenario leaves open (both answers are explored).  ``doubtful``: the question is not about
+        an input of the scenario but about something the interpreter does not model (e.g. `==` between objects of classes whose
+        __eq__ it cannot read): one of the answers may be impossible, so nothing found on such a path counts as a violation"""
         key = (kind,) + tuple(vkey(x) for x in terms)
         r = self.run
         if key in r.cache:
@@ -794,7 +798,10 @@ class Interp:
         i = len(r.taken)
         v = r.prefix[i] if i < len(r.prefix) else True
         r.cache[key] = v
-        r.taken.append((key, v, text or f"{kind}({', '.join(fmt(x, 2) for x in terms)})", terms))
+        txt = text or f"{kind}({', '.join(fmt(x, 2) for x in terms)})"
+        r.taken.append((key, v, txt, terms))
+        if doubtful:
+            r.doubt.append(txt)
         return v
 
     def truth(self, v: t.Any) -> bool:
@@ -977,7 +984,7 @@ class Interp:
                 self.block(st.orelse, fr)
         elif isinstance(st, ast.For):
             broke = False
-            for item in self.iterate(self.ev(st.iter, fr)):
+            for item in self.iterate_lazily(self.ev(st.iter, fr)):
                 self.assign(st.target, item, fr)
                 try:
                     self.block(st.body, fr)
@@ -1430,7 +1437,7 @@ class Interp:
                     results.append(self.ev(e.elt, sub))  # type: ignore[attr-defined]
                 return
             g = gens[i]
-            for item in self.iterate(self.ev(g.iter, sub if i else fr)):
+            for item in self.iterate_lazily(self.ev(g.iter, sub if i else fr)):
                 self.assign(g.target, item, sub)
                 if all(self.truth(self.ev(c, sub)) for c in g.ifs):
                     rec(i + 1)
@@ -1455,6 +1462,27 @@ class Interp:
                 return False, None
 
         return Lazy(pull, "iterator")
+
+    def iterate_lazily(self, v: t.Any) -> t.Iterable[t.Any]:
+        """items for a `for` statement / comprehension: a lazy source is asked for one item per iteration, so that what the loop
+        body does (and a `break`) happens between two pulls"""
+        if not isinstance(v, Lazy):
+            return self.iterate(v)
+
+        def gen() -> t.Iterator[t.Any]:
+            n = 0
+            while True:
+                ok, x = v.pull()
+                if not ok:
+                    return
+                n += 1
+                if n > self.max_loop:
+                    if self.truncate_loops:
+                        raise PathCut()
+                    raise Unsupported(f"unbounded iteration over {v.what}")
+                yield x
+
+        return gen()
 
     def iterate(self, v: t.Any) -> t.Iterable[t.Any]:
         if isinstance(v, Lazy):
@@ -1635,9 +1663,47 @@ class Interp:
             return (not isinstance(a, T)) and (not isinstance(b, T)) and a == b and type(a) is type(b)
         return a is b
 
+    def _eq_kind(self, v: t.Any) -> tuple[str, t.Any] | None:
+        """how `==` treats a value: ("data", class) - instance of a dataclass of the package: equal to instances of exactly its
+        class with equal fields, NotImplemented otherwise; ("id", class) - instance of a package class that inherits
+        object.__eq__ (no __eq__ anywhere in its MRO, no builtin / stdlib base); ("py", None) - None, a number, text, a tuple,
+        list, dict or set; None - not known (custom __eq__, builtin base, opaque value)"""
+        ci = None
+        if isinstance(v, Obj):
+            ci = v.ci
+        elif isinstance(v, T) and v.uid is not None and v.op.startswith("werkzeug."):
+            ci = self.repo.try_cls(v.op)
+            if ci is None:
+                return None
+        if ci is not None:
+            for i, k in enumerate(self.repo.mro(ci)):
+                if not isinstance(k, ClassInfo) or "__eq__" in k.methods or "__eq__" in k.attrs:
+                    return None
+                for d in k.node.decorator_list:
+                    if (dotted(d.func if isinstance(d, ast.Call) else d) or "").rsplit(".", 1)[-1] == "dataclass":
+                        if isinstance(d, ast.Call) and any(kw.arg == "eq" for kw in d.keywords):
+                            return None
+                        return ("data", ci) if i == 0 and isinstance(v, Obj) and getattr(v, "is_record", False) else None
+            return ("id", ci)
+        if v is None or isinstance(v, (bool, int, float, str, bytes, bytearray, tuple, list, dict, set, frozenset, ByteBuf)):
+            return ("py", None)
+        if isinstance(v, T) and v.pytype in ("str", "bytes", "int", "bool", "tuple", "list"):
+            return ("py", None)
+        return None
+
     def _eq(self, a: t.Any, b: t.Any) -> bool:
         if not _has_sym(a) and not _has_sym(b):
             return a == b
+        ka, kb = self._eq_kind(a), self._eq_kind(b)
+        if ka is not None and kb is not None and (ka[0] != "py" or kb[0] != "py"):
+            # python's protocol: a.__eq__(b), then the reflected call, then identity
+            if ka[0] == "data" and kb[0] == "data" and ka[1].fq == kb[1].fq:
+                if a is b:
+                    return True
+                return all(self._eq(a.attrs.get(n), b.attrs.get(n)) for n, _ in self.record_fields(ka[1]))
+            if isinstance(a, T) and isinstance(b, T):
+                return a == b  # the key of a term carries the uid of the constructor call
+            return a is b
         if not _has_term(a) and not _has_term(b):
             if isinstance(a, (Obj, Scripted)) or isinstance(b, (Obj, Scripted)):
                 return a is b
@@ -1659,8 +1725,10 @@ class Interp:
                 return False
             if isinstance(x, T) and x.pytype in ("str", "bytes") and y is not None and ptype(y) is not None and ptype(y) != x.pytype:
                 return False
-        ka, kb = sorted([a, b], key=lambda z: repr(vkey(z)))
-        return self.decide("eq", ka, kb, text=f"{fmt(a, 2)} == {fmt(b, 2)}")
+        sa, sb = sorted([a, b], key=lambda z: repr(vkey(z)))
+        # an object on either side whose __eq__ is not modelled: both answers are explored, but neither is known to be possible
+        doubtful = any(isinstance(x, (Obj, Scripted, FuncVal, Bound, BoundPy, BoundBuiltin, ClassVal)) or (isinstance(x, T) and x.uid is not None) for x in (a, b))
+        return self.decide("eq", sa, sb, text=f"{fmt(a, 2)} == {fmt(b, 2)}", doubtful=doubtful)
 
     def _in(self, a: t.Any, b: t.Any) -> bool:
         if isinstance(b, (set, frozenset, dict, list, tuple)) and not _has_sym(a):
@@ -1677,7 +1745,11 @@ class Interp:
                 return True
             if not b or (not _has_term(a) and not _has_term(list(b))):
                 return False
-            return self.decide("in", a, freeze(b if not isinstance(b, dict) else list(b)), text=f"{fmt(a, 2)} in {fmt(b if not isinstance(b, dict) else list(b), 2)}")
+            kinds = [self._eq_kind(x) for x in [a, *b]]
+            if all(kd is not None for kd in kinds) and (kinds[0][0] != "py" or all(kd[0] != "py" for kd in kinds[1:])):  # type: ignore[index]
+                return any(self._eq(a, x) for x in b)  # membership is `is` or `==` per element, and `==` is known for these
+            doubtful = any(isinstance(x, (Obj, Scripted, FuncVal, Bound, BoundPy, BoundBuiltin)) or (isinstance(x, T) and x.uid is not None) for x in [a, *b])
+            return self.decide("in", a, freeze(b if not isinstance(b, dict) else list(b)), text=f"{fmt(a, 2)} in {fmt(b if not isinstance(b, dict) else list(b), 2)}", doubtful=doubtful)
         if isinstance(b, Scripted):
             if "__contains__" in b.methods:
                 return self.truth(b.methods["__contains__"](self, [a], {}))
@@ -2125,10 +2197,14 @@ class Interp:
                 return stub(self, args, kwargs)
             if not self.should_interpret(fi):
                 if self.foreign_candidate(fi):
-                    mark = len(self.run.effects)
+                    mark, asked = len(self.run.effects), len(self.run.taken)
                     try:
                         return self._interpret(fv, args, kwargs)
-                    except Unsupported:
+                    except Unsupported as e:
+                        if len(self.run.effects) > mark or len(self.run.taken) > asked:
+                            # the attempt had got somewhere (it may have changed an argument) before it gave up: what follows on
+                            # this path is not known to be what the code does
+                            self.run.doubt.append(f"{fi.fq}(...) (interpretation abandoned half-way: {e})")
                         del self.run.effects[mark:]
                 return self.opaque_call(fi.fq, args, kwargs, node=fi.node, module=fi.module)
         return self._interpret(fv, args, kwargs)
@@ -2301,6 +2377,27 @@ class Interp:
             for a in self.iterate(args[0]):
                 out.extend(self.iterate(a))
             return out
+        if fq == "functools.reduce" and len(args) in (2, 3) and not kwargs:
+            items = list(self.iterate(args[1]))
+            if len(args) == 2:
+                if not items:
+                    raise Raised(ExcVal("TypeError", ("reduce() of empty iterable with no initial value",), TypeError), self.cur)
+                acc, items = items[0], items[1:]
+            else:
+                acc = args[2]
+            for x in items:
+                acc = self.call(args[0], [acc, x], {})
+            return acc
+        if fq in ("codecs.decode", "codecs.encode") and args and not (set(kwargs) - {"encoding", "errors"}):
+            cs = kwargs.get("encoding", args[1] if len(args) > 1 else "utf-8")
+            errors = kwargs.get("errors", args[2] if len(args) > 2 else "strict")
+            obj = args[0].value() if isinstance(args[0], ByteBuf) else args[0]
+            if fq == "codecs.decode" and ptype(obj) == "bytes":
+                return decode(obj, cs, errors)
+            if fq == "codecs.encode" and ptype(obj) == "str":
+                return encode(obj, cs, errors)
+        if fq == "collections.deque" and len(args) <= 1 and not kwargs:
+            return _Deque(self.iterate(args[0])) if args else _Deque()
         if fq == "functools.partial":
             fn0, pre, prek = args[0], list(args[1:]), dict(kwargs)
             return BoundPy(fn0, "partial", lambda ip, a, k: ip.call(fn0, pre + list(a), {**prek, **k}))
@@ -2400,6 +2497,20 @@ def _walk_fn(fn: ast.AST) -> t.Iterator[ast.AST]:
 def _as_load(tg: ast.AST) -> ast.AST:
     new = ast.parse(ast.unparse(tg), mode="eval").body
     return ast.copy_location(new, tg)
+
+
+class _Deque(list):
+    """collections.deque without maxlen, as the list of its items (what is appended on the right comes out in that order)"""
+
+    def appendleft(self, x: t.Any) -> None:
+        self.insert(0, x)
+
+    def popleft(self) -> t.Any:
+        return self.pop(0)
+
+    def extendleft(self, xs: t.Iterable[t.Any]) -> None:
+        for x in xs:
+            self.insert(0, x)
 
 
 class _LiveList:
@@ -2755,13 +2866,23 @@ def _b_next(ip: Interp, a: list, k: dict) -> t.Any:
 
 def _b_iter(ip: Interp, a: list, k: dict) -> t.Any:
     if len(a) == 2:
-        out = []
-        for _ in range(ip.max_loop):
-            v = ip.call(a[0], [], {})
-            if ip._eq(v, a[1]):
-                return out
-            out.append(v)
-        raise Unsupported("iter(callable, sentinel) did not terminate")
+        # iter(callable, sentinel): the callable runs once per item, when the item is asked for (the body of a `for` over it runs
+        # between two calls, and a `break` means the callable is not called again)
+        fn, sentinel = a
+        state = {"done": False}
+
+        def pull() -> tuple[bool, t.Any]:
+            if state["done"]:
+                return False, None
+            v = ip.call(fn, [], {})
+            if ip._eq(v, sentinel):
+                state["done"] = True
+                return False, None
+            return True, v
+
+        return Lazy(pull, "iter(callable, sentinel)")
+    if isinstance(a[0], Lazy):
+        return a[0]
     return list(ip.iterate(a[0]))
 
 
@@ -2779,6 +2900,10 @@ def _b_type(ip: Interp, a: list, k: dict) -> t.Any:
     v = a[0]
     if isinstance(v, Obj):
         return ClassVal(v.ci)
+    if isinstance(v, T) and v.uid is not None and v.op.startswith("werkzeug."):
+        ci = ip.repo.try_cls(v.op)  # what the constructor of a package class returned (kept opaque): an instance of that class
+        if ci is not None:
+            return ClassVal(ci)
     if isinstance(v, (T, Scripted)):
         return T("type", (v if isinstance(v, T) else T("$" + v.label),))
     return type(v)
@@ -2842,6 +2967,8 @@ _BUILTINS: dict[str, t.Any] = {
     "sum": _Builtin("sum", _b_sum),
     "print": _Builtin("print", lambda ip, a, k: None),
     "id": _Builtin("id", lambda ip, a, k: T("id", (freeze(a[0]),), pytype="int")),
+    # a view of the bytes: converted back with bytes(), compared, sliced and measured like them
+    "memoryview": _Builtin("memoryview", lambda ip, a, k: (a[0].value() if isinstance(a[0], ByteBuf) else a[0]) if len(a) == 1 and not k and (isinstance(a[0], ByteBuf) or ptype(a[0]) == "bytes") else T("memoryview", tuple(freeze(x) for x in a))),
     "str": str, "bytes": bytes, "bytearray": bytearray, "int": int, "bool": bool, "float": float, "list": list, "tuple": tuple, "dict": dict,
     "set": set, "frozenset": frozenset, "range": range, "object": object, "slice": slice,
     "True": True, "False": False, "None": None, "NotImplemented": NotImplemented, "Ellipsis": Ellipsis,
